@@ -399,6 +399,24 @@ def fixed_point(rdclass, rdtype, rd, origin, ev):
         ev["reenc2_exc"] = type(e).__name__
 
 
+def frame_probe(rdclass, rdtype, b):
+    """the (current, rdlen) frame handed to the classic entry point dns.rdata.from_wire does not fit
+    the buffer: "ov" declares one octet more than the buffer holds after current, "be" puts current
+    one past the end of the buffer (rdlen 0).  Outcome only (ok / err + FormError flag)."""
+    buf = PRE + b
+    out = {}
+    for tag, cur, rdlen in (("ov", len(PRE), len(b) + 1), ("be", len(buf) + 1, 0)):
+        watchdog(True)
+        try:
+            rd = dns.rdata.from_wire(rdclass, rdtype, buf, cur, rdlen)
+            out[tag] = {"res": "ok", "n": len(rd.to_wire()), "formerr": False}
+        except (Exception, Hang) as e:  # noqa: BLE001
+            out[tag] = {"res": "err", "n": 0, "formerr": isinstance(e, dns.exception.FormError)}
+        finally:
+            watchdog(False)
+    return out
+
+
 def dec_event(key, rdclass, rdtype, ft, b):
     """one octet string offered as RDATA in three placements: in the middle of a message (fields of
     the event itself), as the tail of the message ("tl": nothing follows the RDATA) and as the whole
@@ -426,6 +444,7 @@ def dec_event(key, rdclass, rdtype, ft, b):
                 if k in ev and pe.get(k) == ev[k]:
                     del pe[k]
         ev[tag] = pe
+    ev.update(frame_probe(rdclass, rdtype, b))
     return ev
 
 
@@ -694,6 +713,7 @@ def foreign_event(key, rdtype, wire):
     ev["gen"] = isinstance(rd, dns.rdata.GenericRdata)
     if rd is not None:
         fixed_point(FOREIGN_CLASS, rdtype, rd, None, ev)
+    ev.update(frame_probe(FOREIGN_CLASS, rdtype, bytes(wire)))
     return ev
 
 
